@@ -172,6 +172,7 @@ struct passwd *__wrap_getpwnam(const char *n)
 }
 /* checkpoint system calls: counted while armed; the k-th one crashes the process or fails once */
 static long sys_k, sys_fault_at = -1; static int sys_mode; static int sys_trace;
+static int die_before_next_ckpt;	/* mode d: the call fails once, and the process dies before it gets to checkpoint again */
 static int ckfd[64]; static int nckfd;
 static int is_ck(int fd) { for (int i = 0; i < nckfd; i++) if (ckfd[i] == fd) return 1; return 0; }
 static int sys_step(const char *call, const char *arg)
@@ -181,6 +182,7 @@ static int sys_step(const char *call, const char *arg)
 	if (sys_k == sys_fault_at) {
 		if (sys_mode == 'c') { fprintf(o, "{\"e\":\"Crash\",\"k\":%ld,\"call\":\"%s\"}\n", sys_k, call); fflush(o); _exit(77); }
 		fprintf(o, "{\"e\":\"Fail\",\"k\":%ld,\"call\":\"%s\"}\n", sys_k, call);
+		if (sys_mode == 'd') die_before_next_ckpt = 1;
 		errno = EIO; return -1;
 	}
 	return 0;
@@ -479,6 +481,7 @@ int main(int argc, char *argv[])
 				fprintf(o, "{\"e\":\"ChildEvent\",\"pid\":%d,\"kind\":\"%s\",\"traced\":%s}\n", c->pid, line[1] == 'S' ? "stop" : "cont", c->flags ? "true" : "false"); }
 		}
 		else if (!strcmp(line, "FS")) { spawn_fail_in = atoi(a1) > 0 ? atoi(a1) : 1; }
+		else if ((!strcmp(line, "K") || !strcmp(line, "S")) && die_before_next_ckpt) { fprintf(o, "{\"e\":\"Crash\",\"k\":%ld,\"call\":\"before-next-checkpoint\"}\n", sys_k); fflush(o); _exit(77); }
 		else if (!strcmp(line, "K")) { fputs("{\"e\":\"Chkpnt\"}\n", o); if (the_timer) the_timer->cb(&the_loop, the_timer, 0); }
 		else if (!strcmp(line, "F")) { sys_fault_at = sys_k + atol(a1); sys_mode = a2 ? a2[0] : 'c'; }
 		else if (!strcmp(line, "ST")) { sys_trace = atoi(a1); }
